@@ -42,6 +42,9 @@ def run(chk):
             items.append({"case": c, "seed": chk.seed * 100003 + 900 + 10 * j + i, "scalar": "float64", "ninputs": 1,
                           "builder": "harness.corpus.realise_facet", "npairs": 1 if quick else 3, "allperms": True,
                           "label": s5.case_label(c) + "|allperms"})
+    # S7: the table pipeline (clamp / classify / compress / dedupe / access) with injected tables, facet scope
+    from .. import s7
+    chk.add(s7=s7.run_tables(chk, "facet"))
     recs = s5.run_items(chk, items, nworkers=4 if quick else 6)
     nz = s5.report(chk, items, recs)
     ents = {(lab, e) for (lab, it, e, p) in nz}
